@@ -39,9 +39,10 @@ fn meta() -> Meta {
 }
 
 fn spec(i: usize) -> RefSpec {
+    // every specification of the alphabet switches the module q off (see Op::LogQ)
     let m = |d: Option<LevelFilter>, ms: &[(&str, LevelFilter)]| RefSpec {
         default: d,
-        modules: ms.iter().map(|(n, l)| ((*n).to_string(), *l)).collect(),
+        modules: ms.iter().map(|(n, l)| ((*n).to_string(), *l)).chain([("q".to_string(), LevelFilter::Off)]).collect(),
         regex: None,
     };
     match i {
@@ -67,6 +68,9 @@ enum Op {
     WatcherE,
     /// a logging thread's view: reads log::max_level() once, at any moment
     Probe,
+    /// a thread that logs an error record for module q, which every specification of the
+    /// alphabet switches off: whenever it comes, the record must not be written
+    LogQ,
 }
 const OPS: [Op; 6] = [Op::SetA, Op::ParseB, Op::PushC, Op::PushPopC, Op::SetD, Op::WatcherE];
 
@@ -104,6 +108,7 @@ fn harnesses(tier: &str) -> Vec<Vec<Op>> {
     // a logging thread looking at the gate while one or two changes are under way
     for a in 0..OPS.len() {
         v.push(vec![OPS[a], Op::Probe]);
+        v.push(vec![OPS[a], Op::LogQ]);
     }
     for pair in [[Op::SetA, Op::WatcherE], [Op::WatcherE, Op::SetD], [Op::ParseB, Op::WatcherE], [Op::PushPopC, Op::WatcherE]] {
         v.push(vec![pair[0], pair[1], Op::Probe]);
@@ -139,6 +144,8 @@ struct Obs {
     gate: LevelFilter,
     /// what the probing thread saw
     probed: Option<LevelFilter>,
+    /// records for module q that reached the default channel
+    q_written: usize,
 }
 
 fn sched_cfg_for(unmodelled: bool) -> SchedCfg {
@@ -161,20 +168,24 @@ fn sched_cfg() -> SchedCfg {
 fn body(ops: Vec<Op>) -> Arc<dyn Fn(&Arc<Sched>) -> Obs + Send + Sync> {
     Arc::new(move |s: &Arc<Sched>| {
         let extra = Recorder::new(LevelFilter::Warn);
+        let primary = Recorder::new(LevelFilter::Trace);
         let (logger, handle) = Logger::with(spec(INITIAL).build())
-            .do_not_log()
+            .log_to_writer(Box::new(primary.clone()))
             .add_writer("W", Box::new(extra))
             .error_channel(flexi_logger::ErrorChannel::DevNull)
             .build()
             .expect("build");
+        let logger: Arc<Box<dyn Log>> = Arc::new(logger);
         let mut hs = Vec::new();
         let probed: Arc<std::sync::Mutex<Option<LevelFilter>>> = Arc::new(std::sync::Mutex::new(None));
         for (i, op) in ops.iter().enumerate() {
             let mut h = handle.clone();
             let op = *op;
             let probed = Arc::clone(&probed);
+            let lq = Arc::clone(&logger);
             hs.push(s.spawn(&format!("t{i}"), move || {
                 match op {
+                    Op::LogQ => lq.log(&log::Record::builder().args(format_args!("from q")).level(log::Level::Error).target("q").module_path(Some("q")).build()),
                     Op::WatcherE => h.verif_subscriber_set_new_spec(spec(5).build()).expect("subscriber"),
                     Op::Probe => *probed.lock().unwrap() = Some(log::max_level()),
                     Op::SetA => h.set_new_spec(spec(0).build()),
@@ -203,7 +214,8 @@ fn body(ops: Vec<Op>) -> Arc<dyn Fn(&Arc<Sched>) -> Obs + Send + Sync> {
         std::mem::forget(handle);
         drop(logger);
         let probed = *probed.lock().unwrap();
-        Obs { grid, gate, probed }
+        let q_written = primary.take().iter().filter(|r| r.target == "q").count();
+        Obs { grid, gate, probed, q_written }
     })
 }
 
@@ -221,7 +233,7 @@ fn candidates(ops: &[Op]) -> Vec<usize> {
             }
             Op::SetD => c.push(3),
             Op::WatcherE => c.push(5),
-            Op::Probe => {}
+            Op::Probe | Op::LogQ => {}
         }
     }
     if ops.contains(&Op::PushPopC) {
@@ -234,7 +246,7 @@ fn candidates(ops: &[Op]) -> Vec<usize> {
                 Op::SetD => c.push(3),
                 Op::PushPopC => c.push(2),
                 Op::WatcherE => c.push(5),
-                Op::Probe => {}
+                Op::Probe | Op::LogQ => {}
             }
         }
     }
@@ -254,8 +266,14 @@ fn judge(ops: &[Op], o: &Obs) -> Result<usize, (String, String)> {
             ));
         }
     }
+    if o.q_written > 0 {
+        return Err((
+            "written-though-disabled".into(),
+            "an error record for module q was written although every specification involved (the initial one and the submitted ones) switches q off".to_string(),
+        ));
+    }
     let mut cands = candidates(ops);
-    if ops.iter().all(|o| *o == Op::Probe) || cands.is_empty() {
+    if ops.iter().all(|o| matches!(o, Op::Probe | Op::LogQ)) || cands.is_empty() {
         cands.push(INITIAL);
     }
     let hit = cands.iter().copied().find(|c| spec(*c).grid(&TARGETS) == o.grid);
